@@ -311,7 +311,10 @@ def pull(repo: Repo, chk: Check) -> None:
                 if fact.kind != "atom":
                     continue
                 e_ = norm.primary(fact.expr)
-                reached_when.extend(e_.values if isinstance(e_, ast.BoolOp) and isinstance(e_.op, ast.Or) else [e_])
+                # an operand that is a conjunction contributes each of its conjuncts (`a or (b and c)`: reached under a, or under b and c)
+                for o_ in (e_.values if isinstance(e_, ast.BoolOp) and isinstance(e_.op, ast.Or) else [e_]):
+                    o_ = norm.primary(o_)
+                    reached_when.extend(o_.values if isinstance(o_, ast.BoolOp) and isinstance(o_.op, ast.And) else [o_])
             for e_ in reached_when:
                 if norm.any_match(["val_is_defined_in_block($v, $op.parent_op().body.block)", "val_is_defined_in_block($v, $op.parent_op().body.blocks[0])"],
                                   e_, {"op": op}) is not None:
